@@ -96,6 +96,8 @@ pub struct S1 {
     #[deb822(field = "Other-Colour")]
     other_colour: Option<Color>,
     plain_colour: Color,
+    // a keyword as field name: both derives must agree on the key it gets
+    r#type: Option<String>,
 }
 
 /// both custom codecs
@@ -195,6 +197,7 @@ fn expected_fields(v: &Value) -> Vec<(String, String)> {
             put("opt_colour", s.opt_colour.map(|x| x.to_string()));
             put("Other-Colour", s.other_colour.map(|x| x.to_string()));
             put("plain_colour", Some(s.plain_colour.to_string()));
+            put(raw_key(), s.r#type.clone());
         }
         Value::S2(s) => {
             put("items", Some(ser_list(&s.items)));
@@ -224,6 +227,18 @@ fn expected_fields(v: &Value) -> Vec<(String, String)> {
     e
 }
 
+/// The key of the field declared as `r#type`: "r#type" or "type" are both defensible, so the
+/// writer's choice is taken as given; what is checked is that the reader and every other path agree with it.
+fn raw_key() -> &'static str {
+    static K: std::sync::OnceLock<&'static str> = std::sync::OnceLock::new();
+    K.get_or_init(|| {
+        let s = S1 { name: "n".into(), count: 0, big: 0, flag: false, opt_name: None, opt_count: None, opt_flag: None, colour: Color::Red, opt_colour: None, other_colour: None, plain_colour: Color::Red, r#type: Some("probe-value".into()) };
+        let p: LP = s.to_paragraph();
+        let k = p.iter().find(|(_, v)| *v == "probe-value").map(|(k, _)| k.to_string()).unwrap_or_else(|| "r#type".to_string());
+        if k == "type" { "type" } else { "r#type" }
+    })
+}
+
 fn mandatory_keys(v: &Value) -> Vec<&'static str> {
     match v {
         Value::S1(_) => vec!["name", "count", "Big-Count", "flag", "Colour", "plain_colour"],
@@ -233,7 +248,7 @@ fn mandatory_keys(v: &Value) -> Vec<&'static str> {
 }
 fn all_keys(v: &Value) -> Vec<&'static str> {
     match v {
-        Value::S1(_) => vec!["name", "count", "Big-Count", "flag", "opt_name", "Opt-Count", "opt_flag", "Colour", "opt_colour", "Other-Colour", "plain_colour"],
+        Value::S1(_) => vec!["name", "count", "Big-Count", "flag", "opt_name", "Opt-Count", "opt_flag", "Colour", "opt_colour", "Other-Colour", "plain_colour", raw_key()],
         Value::S2(_) => vec!["items", "More-Items", "opt_items", "Opt-More", "enabled", "Opt-Enabled", "Shade", "opt_shade"],
         Value::S3(_) => vec!["delta", "Delta-2", "opt_delta", "Opt-Delta-2", "size", "Size-2", "opt_size", "Opt-Size-2", "tint", "Opt-Tint", "words", "Opt-Words"],
     }
@@ -663,6 +678,7 @@ fn gen_matrix_value(t: &mut Tape) -> Value {
             opt_colour: opt(t, gen_color),
             other_colour: opt(t, gen_color),
             plain_colour: gen_color(t),
+            r#type: opt(t, gen_string),
         }),
         1 => Value::S2(S2 {
             items: gen_items(t),
